@@ -17,6 +17,10 @@ func c07Alphabet() []*Expr {
 		sFilter(eCmp("==", eCur(sAnyKey()), eInt(1))),
 		sFilter(eCmp("==", eCur(sAnyArray()), eNull())),
 		sFilter(eCmp("!=", eCur(sIndex(sub1(eInt(1)))), eNull())),
+		// a structural mismatch at one position of a subscript list inside a condition makes it unknown
+		sFilter(eCmp("==", eCur(sIndex(sub1(eInt(0)), sub1(eInt(1))), sKey("a")), eInt(1))),
+		sFilter(eCmp("==", eCur(sIndex(sub1(eInt(1)), sub1(eInt(0))), sKey("a")), eInt(1))),
+		sFilter(eExists(eCur(sIndex(subR(eInt(0), eInt(1))), sKey("a")))),
 	}
 	return a
 }
